@@ -1,10 +1,13 @@
 """C12 — each output row depends only on its own input item and the fitted model.
-Proof gate (Properties/C12.v: the map laws, the batching skeletons, the block/chunk index arithmetic) +
-correspondence of Model/K19_RowWise.v (blocks / chunks ranges, LZ per-string reset, BPE per-string encode) with
+Proof gate (Properties/C12.v: the map laws, the batching skeletons, the block/chunk index arithmetic, the chunk loop
+inside the LOT kernels) + correspondence of Model/K19_RowWise.v (blocks / chunks ranges, rows written by the kernels'
+chunk loop, LZ per-string rebuild from the base dictionary in phrase or hashed key space, BPE per-string encode) with
 the implementation + property oracle on EVERY estimator of the property's list: for a fitted estimator and a batch
 `items`, transform(items[idx]) must equal the rows idx of transform(items) for sub-batches (A, B with A+B = items),
-a permutation, a batch with a duplicated item, and for the whole batch under block / chunk sizes
-{1,2,3,n-1,n,n+1}; every run under NUMBA_NUM_THREADS 1 and 16."""
+a permutation, a batch with a duplicated item, singletons, and for the whole batch under block / chunk sizes
+{1,2,3,n-1,n,n+1}; long batches (more than one 256-row chunk in one block of the LOT kernels, several Sinkhorn chunks,
+~100 strings for the parallel BPE loop) against their halves, a permutation and block sizes around 256; under
+NUMBA_NUM_THREADS 1 and 16."""
 import math
 
 from . import common as C
@@ -123,14 +126,16 @@ def rstring(rng, lo, hi, alphabet="abc"):
 
 
 def gen_lz(rng):
-    alpha = rng.choice(["ab", "abc", "a", "ab\u00e9"])
+    alpha = rng.choice(["ab", "abc", "ab", "a", "ab\u00e9"])
     fit = [rstring(rng, 0, 12, alpha) for _ in range(rng.randint(3, 6))]
-    # any strings: unseen phrases, unseen characters, empty and 1-character strings, training strings
-    wide = alpha + rng.choice(["", "z", "z\u4e2d"])
-    items = [rng.choice(fit) if rng.random() < 0.25 else rstring(rng, 0, 12, wide) for _ in range(rng.randint(3, 6))]
+    # any strings: unseen phrases, unseen characters (in the base dictionary or not: 'w' never is), empty and
+    # 1-character strings, training strings
+    wide = alpha + rng.choice(["", "z", "z", "z\u4e2d"])
+    items = [rng.choice(fit) if rng.random() < 0.25 else rstring(rng, 0, 12, wide) for _ in range(rng.randint(3, 5))]
+    items.append(rstring(rng, 1, 8, alpha + "w"))
     items.append(rng.choice(["", rng.choice(wide), rng.choice(items)]))
     rng.shuffle(items)
-    p = {"max_dict_size": rng.choice([2, 3, 5, 1 << 16]), "max_columns": rng.choice([None, None, 8, 64]),
+    p = {"max_dict_size": rng.choice([2, 3, 5, 8, 1 << 16, 1 << 16, 1 << 16]), "max_columns": rng.choice([None, None, 8, 64]),
          "random_state": rng.choice([0, 1, 7])}
     c = {"est": "LZ", "params": p, "data_kind": "strings", "fit": fit, "items": items}
     if rng.random() < 0.6:
@@ -139,7 +144,7 @@ def gen_lz(rng):
         kind = rng.choice(["alphabet", "phrases", "mixed"])
         base = {}
         if kind in ("alphabet", "mixed"):
-            for ch in wide:
+            for ch in (alpha if kind == "alphabet" else wide):
                 base[ch] = rng.choice([1, 1, 2])
         if kind in ("phrases", "mixed"):
             for _ in range(rng.randint(1, 4)):
@@ -249,13 +254,13 @@ def lil_data(rng, n, d, lo, hi):
     return [[round(rng.random() + 0.05, 3) for _ in range(s)] for s in sizes], [vecs(rng, s, d) for s in sizes]
 
 
-def gen_wasserstein(rng, combo=None, long_n=None):
+def gen_wasserstein(rng, combo=None, long_n=None, metric=None):
     if combo is None:
         combo = WASS_COMBOS[_wass_counter[0] % len(WASS_COMBOS)]       # every (method, input_method) in turn
         _wass_counter[0] += 1
     method, inp = combo
     v, d = rng.choice([5, 7]), rng.choice([2, 3])
-    metric = rng.choice(["euclidean", "cosine"])
+    metric = metric or rng.choice(["euclidean", "cosine"])
     p = {"method": method, "input_method": inp, "n_components": 3, "reference_size": rng.choice([3, 4]),
          "metric": metric, "random_state": 0}
     if method == "LOT_exact" and rng.random() < 0.4:
@@ -421,7 +426,9 @@ def long_cases(rng, quick):
     if not quick:
         cs += [gen_wasserstein(rng, ("LOT_exact", "spmatrix"), n) for n in (257, 512, 513, 700)]
         cs += [gen_wasserstein(rng, ("LOT_exact", "generator"), n) for n in (256, 512, 600)]
-        cs += [gen_wasserstein(rng, ("LOT_exact", "lil"), 514), gen_bpe_long(rng)]
+        # the two metrics take different conversion loops in the lil path (same compiled extends)
+        cs += [gen_wasserstein(rng, ("LOT_exact", "lil"), 514, metric=m) for m in ("euclidean", "cosine")]
+        cs += [gen_bpe_long(rng)]
     return cs
 
 
@@ -572,7 +579,7 @@ def run(ctx, replay=None):
         for i, cc, r in zip(ix, cs, res):
             results[g.split(":")[0]][i] = (cc, r)
     n_oracle = 0
-    per_est = {}
+    per_est, failing = {}, {}
     for i, c in enumerate(cases):
         kind = "%s:%s" % (c["est"], c["params"].get("method", c["params"].get("return_type", c["data_kind"])))
         if c["est"] == "Wasserstein":
@@ -602,12 +609,15 @@ def run(ctx, replay=None):
             bad = check_case(cc, r["ok"], ref)
             for msg, op in bad[:1]:
                 key = finding_key(c, op)
+                if key is None:
+                    failing[kind] = failing.get(kind, 0) + 1           # ctx.report keeps the first five replays only
                 ctx.report(msg + " (NUMBA_NUM_THREADS=%s)" % tag,
                            {"stage": "oracle", "case": c, "op": op, "threads": tag}, found_input=True, finding_key=key)
     t_oracle = time.time()
     one = [results["1"].get(i, (None, {}))[1] for i in range(len(cases))]
     model_bad = model_eval(cases, one)
-    ctx.coverage["oracle"] = {"cases": n_oracle, "ops": sum(len(c["ops"]) for g in payload for c in payload[g])}
+    ctx.coverage["oracle"] = {"cases": n_oracle, "ops": sum(len(c["ops"]) for g in payload for c in payload[g]),
+                              "failing_cases_by_kind": failing}
     ctx.coverage["correspondence"] = {"cases": model_bad[1], "disagreements": len(model_bad[0]),
                                       "model": "Model/K19_RowWise.v via vm_compute", "by_kind": model_bad[2]}
     ctx.coverage["traces_validated_against_impl"] = model_bad[1]
@@ -672,6 +682,8 @@ def model_eval(cases, results):
         if "ok" not in r:
             continue
         outs = r["ok"]
+        if c["est"] in ("LZ", "BPE") and "rows" not in outs[0]:
+            continue                                         # the whole batch raised: reported by the oracle
         if c["est"] in ("Wasserstein", "Sinkhorn"):
             method = c["params"].get("method", "LOT_sinkhorn")
             if method == "HeuristicLinearAlgebra":
